@@ -268,6 +268,25 @@ partial def pyApply (op : POp) (vs : List PV) : Except PE PV :=
       | .str s :: extra => (s.toList.mapM fun c => pyApply f (.str (String.singleton c) :: extra)).map PV.list
       | .list xs :: extra => (xs.mapM fun x => pyApply f (x :: extra)).map PV.list
       | _ => .error .typeErr
+    else if (op.splitOn "#k=").length == 2 then
+      -- f(*positional, **keywords) for the two-parameter user functions kwpair(x, y) / kwsub(x, y)
+      match op.splitOn "#k=" with
+      | [f, names] =>
+        let ks := names.splitOn ","
+        let npos := vs.length - ks.length
+        let pos := vs.take npos
+        let kwv := ks.zip (vs.drop npos)
+        let params := ["x", "y"]
+        if npos > 2 || ks.any (fun k => !params.contains k) || ks.any (fun k => (params.take npos).contains k) then .error .typeErr
+        else
+          let get (i : Nat) (name : String) : Option PV :=
+            if i < npos then pos[i]? else (kwv.find? (·.1 == name)).map (·.2)
+          match get 0 "x", get 1 "y" with
+          | some x, some y =>
+            if f == "kwpair" then .ok (.list [x, y]) else if f == "kwsub" then pyApply "sub" [x, y]
+            else .error (.other ("unknown-kw-function-" ++ f))
+          | _, _ => .error .typeErr
+      | _ => .error (.other "bad-kw")
     else match (match op.splitOn "#" with
         | [b, sh] => some (b, sh, false) | [b, sh, "r"] => some (b, sh, true) | _ => Option.none) with
     | some (base, shape, rev) =>
@@ -306,7 +325,9 @@ def hasAttr (v : PV) (op : POp) : Bool :=
 def pySem : Sem PV PE POp :=
   { apply := pyApply, truthy := truthy, isEqual := pyEq, none := .none,
     isNone := fun v => match v with | .none => true | _ => false,
-    hasAttr := hasAttr, attrErr := .attrErr }
+    hasAttr := hasAttr, attrErr := .attrErr,
+    iterLen := fun v => match v with | .str s => some s.length | .list xs => some xs.length | _ => Option.none,
+    typeErr := .typeErr, ofBool := .bool }
 
 /-! ### JSON -/
 
@@ -372,11 +393,25 @@ def parseStmt (j : Json) : Except String (Stmt PV POp) := do
       -- `reverse=True` only moves the pipeline object behind the first (packed) operand: done by the packing
       return .op (← getNat j "n") (o ++ "#" ++ sh ++ (if rev then "#r" else "")) false args
   | "meth" => return .meth (← getNat j "n") ("m:" ++ (← getStr j "op")) (← parseArgs j "args")
-  | "bind" => return .bind (← getStr j "f") (← parseArgs j "args")
+  | "meth2" => return .meth2 (← getNat j "n") ("m:" ++ (← getStr j "op")) (← parseArgs j "args") (← parseArgs j "args2")
+  | "bind" =>
+    -- keyword arguments follow the positional ones (dependency order and evaluation order of bind());
+    -- their names travel in the function name
+    let pos ← parseArgs j "args"
+    match getOpt j "kw" with
+    | Option.none => return .bind (← getStr j "f") pos
+    | some kws =>
+      let kw ← (← kws.getArr?).toList.mapM fun p => do
+        let a ← p.getArr?
+        if a.size != 2 then throw "keyword pair expected"
+        return ((← a[0]!.getStr?), (← parseArg a[1]!))
+      if kw.isEmpty then return .bind (← getStr j "f") pos
+      return .bind ((← getStr j "f") ++ "#k=" ++ ",".intercalate (kw.map (·.1))) (pos ++ kw.map (·.2))
   | "where" => return .where_ (← parseArg (← j.getObjVal? "c")) (← parseArg (← j.getObjVal? "x")) (← parseArg (← j.getObjVal? "y"))
   | "watch" => return .watch (← getNat j "n")
   | "set" => return .set (← getNat j "p") (← parseVal (← j.getObjVal? "v"))
   | "read" => return .read (← getNat j "n")
+  | "isin" => return .isin (← getNat j "n") "contains" (← parseVal (← j.getObjVal? "v"))
   | "ref" => return .ref (← getNat j "n")
   | "readref" => return .readref (← getNat j "h")
   | s => throw s!"unknown statement {s}"
@@ -411,9 +446,9 @@ def jOutcome : Outcome PV PE → Json
   | .fuel => Json.mkObj [("k", "fuel")]
 
 def stmtKind : Stmt PV POp → String
-  | .lit _ => "lit" | .obj _ => "obj" | .rootp _ => "rootp" | .op .. => "op" | .meth .. => "meth"
+  | .lit _ => "lit" | .obj _ => "obj" | .rootp _ => "rootp" | .op .. => "op" | .meth .. => "meth" | .meth2 .. => "meth2"
   | .bind .. => "bind" | .where_ .. => "where" | .watch _ => "watch" | .set .. => "set" | .read _ => "read"
-  | .ref _ => "ref" | .readref _ => "readref"
+  | .ref _ => "ref" | .readref _ => "readref" | .isin .. => "isin"
 
 /-- which branch of the model a statement exercises (coverage only) -/
 def branchOf (w : World PV PE POp) (s : Stmt PV POp) (o : Outcome PV PE) : List String :=
